@@ -38,6 +38,7 @@ _UT_RE = re.compile(r"\((\d+),(\d+)\)")
 _INT_RE = re.compile(r"\d+")
 _DIST_RE = re.compile(r"\+(\d+)")
 
+KIND_NAME = {"L": "untargeted", "T": "targeted", "S": "solved"}
 KIND_DELIMS = {"L": DELIMS[:2], "T": DELIMS[:6], "S": DELIMS[:8]}
 
 
@@ -605,6 +606,16 @@ def path_maze_set(name, tier):
         if quick:
             return [S(11, 11, bits, snake[::-1][:37])]
         return [S(11, 11, bits, snake), S(11, 11, bits, short), S(11, 11, bits, snake[::-1][:37])]
+    if name == "corr17":
+        # fork-free serpentine corridor on 17x17 (289 cells): Forks steps of 255 (largest Distance token) and 256 cells
+        n = 17
+        edges = [((i, j), (i, j + 1)) for i in range(n) for j in range(n - 1)]
+        edges += [((i, n - 1 if i % 2 == 0 else 0), (i + 1, n - 1 if i % 2 == 0 else 0)) for i in range(n - 1)]
+        bits = bits_of_edges(n, n, edges)
+        snake = []
+        for i in range(n):
+            snake += [(i, j) for j in (range(n) if i % 2 == 0 else range(n - 1, -1, -1))]
+        return [S(n, n, bits, snake[:256]), S(n, n, bits, snake[:257])]
     if name == "s50":
         bits, snake, short = structured(50)
         # Distance tokens exist up to +255: the longest fork-free stretch of the stored solution stays below that
@@ -787,28 +798,46 @@ def covering_prompt():
 
 # --------------------------------------------------------------------------------------------------------------
 # running one case
-def _cls_adj(ap, cp):
-    return f"{ap['cls']}/{ap['subset']}/{ap['permuter']}"
+def _short(spec):
+    r = repr(spec)
+    return r if len(r) < 400 else r[:400] + "...)"
 
 
-def _cls_path(pp, cp):
-    return f"{pp['size']}"
+def fam_adj(ap):
+    return ap["cls"]
 
 
-def run_case(res, sweep, fn, judge, keycls, spec, prog, explore_rng, ident, expect_nonsquare=False):
+def fam_path(pp, cl, sol):
+    """tokenizer family, plus the input class 'gap>255' when the reference step rule needs a Distance beyond the vocabulary's +255"""
+    f = pp["size"]
+    if "Distance" in pp["toks"]:
+        idx = step_indices(cl, [tuple(p) for p in sol], pp["size"])
+        if any(j - i > 255 for i, j in zip(idx[:-1], idx[1:])):
+            f += "|gap>255"
+    return f
+
+
+def fail_key(sweep, fam, region, symptom):
+    """C06|<region judged>|<tokenizer family / input class>|<symptom>. `fam` maps region -> family string"""
+    region = region or SWEEP_REGION[sweep]
+    return f"C06|{region}|{fam.get(region, fam['prompt'])}|{symptom}"
+
+
+SWEEP_REGION = dict(adj_region="adj", path_region="path", full="prompt", prompt="prompt")
+
+
+def run_case(res, sweep, fn, judge, fam, spec, prog, explore_rng, ident, expect_nonsquare=False):
     """executes fn() under the oracle (identity answers, or every execution with <= 1 deviation), judges every outcome"""
-    seen = [0]
 
     def on_exec(ex):
         res.ev()
-        seen[0] += 1
-        rd = dict(sweep=sweep, spec=spec, prog=prog, answers=ex.answers)
+        rd = dict(sweep=sweep, spec=spec, prog=prog, answers=ex.answers, fam=fam)
         if ex.exc is not None:
             if expect_nonsquare and isinstance(ex.exc, AssertionError) and "only square mazes supported" in str(ex.exc):
                 res.count("documented_nonsquare_rejections")
                 return
-            res.fail(f"C06|{sweep}|{keycls}|raises|{type(ex.exc).__name__}",
-                     f"{sweep} tokenization raised {type(ex.exc).__name__}: {str(ex.exc)[:200]} for {ident} on maze {spec} "
+            res.fail(fail_key(sweep, fam, None, f"raises|{type(ex.exc).__name__}"),
+                     f"{sweep} tokenization raised {type(ex.exc).__name__}: {str(ex.exc)[:200]} for {ident} on maze {_short(spec)} "
                      f"with RNG answers {ex.answers}", rd)
             return
         toks = ex.out
@@ -817,10 +846,9 @@ def run_case(res, sweep, fn, judge, keycls, spec, prog, explore_rng, ident, expe
                 raise Bad("type", f"to_tokens returned {type(toks).__name__}, not a list")
             n = judge(toks)
         except Bad as b:
-            region = getattr(b, "region", None)
-            site = sweep if region is None else f"{sweep}|{region}"
-            res.fail(f"C06|{site}|{keycls}|{b.symptom}",
-                     f"{b.msg}; tokenizer {ident}; maze {spec}; RNG answers {ex.answers}; tokens: {' '.join(map(str, toks))[:700]}", rd)
+            res.fail(fail_key(sweep, fam, getattr(b, "region", None), b.symptom),
+                     f"[{sweep} sweep] {b.msg}; tokenizer {ident}; maze {_short(spec)}; RNG answers {ex.answers}; "
+                     f"tokens: {' '.join(map(str, toks))[:700]}", rd)
             return
         if n > 0:
             res.count("decoded_items", n)
@@ -863,7 +891,7 @@ def task(t, res):
                             judge_vocab(toks, vocab)
                             return judge_adj(toks, ap, cp, cl)
 
-                        run_case(res, "adj_region", lambda: a.to_tokens(m, c), judge, f"{ap['cls']}|{cp['cls']}", spec,
+                        run_case(res, "adj_region", lambda: a.to_tokens(m, c), judge, dict(adj=fam_adj(ap), prompt="-"), spec,
                                  dict(adj=ap, coord=cp), t["rng"], f"{a.name} + {c.name}")
                         if cl.any() or ap["subset"] != "conn":
                             res.nontrivial(("a", ai, ci, spec))
@@ -872,13 +900,17 @@ def task(t, res):
             built = [(s, build(s), maze_cl(s)) for s in mazes]
             for pi in range(*t["progs"]):
                 p, pp = sp.paths[pi], sp.pp[pi]
-                for ci, (c, cp) in enumerate(zip(sp.coords, sp.cp)):
+                if t.get("only_size") and pp["size"] != t["only_size"]:
+                    continue
+                for ci in (t.get("coords") or range(len(sp.coords))):
+                    c, cp = sp.coords[ci], sp.cp[ci]
                     for spec, m, cl in built:
                         def judge(toks, pp=pp, cp=cp, cl=cl, spec=spec):
                             judge_vocab(toks, vocab)
                             return judge_path(toks, pp, cp, cl, spec[6])
 
-                        run_case(res, "path_region", lambda: p.to_tokens(m, c), judge, f"{pp['size']}|{cp['cls']}", spec,
+                        run_case(res, "path_region", lambda: p.to_tokens(m, c), judge,
+                                 dict(path=fam_path(pp, cl, spec[6]), prompt="-"), spec,
                                  dict(path=pp, coord=cp), False, f"{p.name} + {c.name}")
                         if len(spec[6]) > 1:
                             res.nontrivial(("p", pi, ci, spec))
@@ -898,7 +930,9 @@ def task(t, res):
                         return judge_prompt(toks, fp, spec, vocab)
 
                     nonsq = spec[1] != spec[2] and fp["adj"]["subset"] == "all"
-                    run_case(res, t["sweep"], lambda: tok.to_tokens(m), judge, f"{fp['seq']}|{spec[0]}", spec, fp, t["rng"],
+                    fam = dict(adj=fam_adj(fp["adj"]), prompt=f"{fp['seq']}|{KIND_NAME[spec[0]]}", origin=fp["seq"], target=fp["seq"],
+                               path=fam_path(fp["path"], maze_cl(spec), spec[6]) if spec[0] == "S" else "-")
+                    run_case(res, t["sweep"], lambda: tok.to_tokens(m), judge, fam, spec, fp, t["rng"],
                              tok.name, expect_nonsquare=nonsq)
                     if not nonsq:
                         res.nontrivial((t["sweep"][0], fi, spec))
@@ -936,6 +970,8 @@ def plan(tier):
         T_.append(dict(sweep="path", mazes="s11", progs=pr))
     for pr in chunks(nP, 24 if quick else 96):
         T_.append(dict(sweep="path", mazes="s33", progs=pr))
+    for pr in chunks(nP, 8):
+        T_.append(dict(sweep="path", mazes="corr17", progs=pr, coords=[0, 1], **(dict(only_size="Forks") if quick else {})))
     # 2. input sweep with the pairwise-covering full tokenizers
     for pr in chunks(nF, 11):
         T_.append(dict(sweep="full", mazes="k22s", progs=pr, rng=True))
@@ -950,8 +986,8 @@ def plan(tier):
         T_.append(dict(sweep="prompt", mazes="p33", progs=pr, rng=False))
     if not quick:
         for pr in chunks(nA, 54):
-            T_.append(dict(sweep="adj", mazes="g33", progs=pr, rng=True, coords=RNG_COORDS))
-            T_.append(dict(sweep="adj", mazes="g33", progs=pr, rng=False, coords=OTHER))
+            T_.append(dict(sweep="adj", mazes="g33", progs=pr, rng=True, coords=[0]))
+            T_.append(dict(sweep="adj", mazes="g33", progs=pr, rng=False, coords=list(range(1, len(sp.coords)))))
         for pr in chunks(nA, 48):
             T_.append(dict(sweep="adj", mazes="big50", progs=pr, rng=False))
         for pr in chunks(nP, 48):
@@ -985,7 +1021,8 @@ def run(ctx):
         covering_full_tokenizers=len(fps), whole_prompt_tokenizers=len(wps),
         maze_sets={f"{a}:{b}": n for (a, b), n in sorted(sets.items())},
         rng_bound="every execution with <= 1 non-default RNG answer (all permutations / flip vectors for <= 4 / <= 8 items, "
-                  "bounded family above) where rng=True (2x2 sets; 3x3 adjacency set in thorough); identity answers elsewhere",
+                  "bounded family above) on the 2x2 sets (adjacency region: with coord tokenizers UT, CTT(T,T,T), CTT(F,F,F) in quick, all 9 in thorough; "
+                  "input sweep; whole-prompt sweep in thorough) and on the 3x3 adjacency set with UT in thorough; identity answers elsewhere",
         tasks=len(tasks),
     )
     ctx.rule = ("one evaluation = one real tokenization (one RNG answer sequence) decoded by the independent grammar decoder and compared with "
@@ -1010,11 +1047,12 @@ def replay(d, res):
     m = build(spec)
     cl = maze_cl(spec)
     sweep = d["sweep"]
+    fam = d["fam"]
     with owned_rng():
         if sweep == "adj_region":
             a, c = sp.get("a", prog["adj"]), sp.get("c", prog["coord"])
             ap, cp = prog["adj"], prog["coord"]
-            fn, ident, keycls = (lambda: a.to_tokens(m, c)), f"{a.name} + {c.name}", f"{ap['cls']}|{cp['cls']}"
+            fn, ident = (lambda: a.to_tokens(m, c)), f"{a.name} + {c.name}"
 
             def judge(toks):
                 judge_vocab(toks, vocab)
@@ -1022,14 +1060,14 @@ def replay(d, res):
         elif sweep == "path_region":
             p, c = sp.get("p", prog["path"]), sp.get("c", prog["coord"])
             pp, cp = prog["path"], prog["coord"]
-            fn, ident, keycls = (lambda: p.to_tokens(m, c)), f"{p.name} + {c.name}", f"{pp['size']}|{cp['cls']}"
+            fn, ident = (lambda: p.to_tokens(m, c)), f"{p.name} + {c.name}"
 
             def judge(toks):
                 judge_vocab(toks, vocab)
                 return judge_path(toks, pp, cp, cl, spec[6])
         else:
             tok = sp.full(prog)
-            fn, ident, keycls = (lambda: tok.to_tokens(m)), tok.name, f"{prog['seq']}|{spec[0]}"
+            fn, ident = (lambda: tok.to_tokens(m)), tok.name
 
             def judge(toks):
                 return judge_prompt(toks, prog, spec, vocab)
@@ -1037,13 +1075,12 @@ def replay(d, res):
         if ex.exc is not None:
             if spec[1] != spec[2] and isinstance(ex.exc, AssertionError) and "only square" in str(ex.exc):
                 return
-            res.fail(f"C06|{sweep}|{keycls}|raises|{type(ex.exc).__name__}", f"raised {ex.exc!r} for {ident} on {spec}", d)
+            res.fail(fail_key(sweep, fam, None, f"raises|{type(ex.exc).__name__}"), f"raised {ex.exc!r} for {ident} on {_short(spec)}", d)
             return
         try:
             if not isinstance(ex.out, list):
                 raise Bad("type", "not a list")
             judge(ex.out)
         except Bad as b:
-            region = getattr(b, "region", None)
-            site = sweep if region is None else f"{sweep}|{region}"
-            res.fail(f"C06|{site}|{keycls}|{b.symptom}", f"{b.msg}; tokenizer {ident}; maze {spec}; tokens: {' '.join(map(str, ex.out))[:700]}", d)
+            res.fail(fail_key(sweep, fam, getattr(b, "region", None), b.symptom),
+                     f"{b.msg}; tokenizer {ident}; maze {_short(spec)}; tokens: {' '.join(map(str, ex.out))[:700]}", d)
